@@ -62,8 +62,9 @@ class Case:
 
     def text(self, frm=0):
         out = ["S %d" % self.sid]
-        for op, args, exp, _ in self.steps[frm:]:
-            out.append("%s %s = %s -" % (op, " ".join(args), exp))
+        for st in self.steps[frm:]:
+            # (op, args, expected return token, meta[, expected state token]) - the state token defaults to "-" (pure functions)
+            out.append("%s %s = %s %s" % (st[0], " ".join(st[1]), st[2], st[4] if len(st) > 4 else "-"))
         out.append("E\n")
         return "\n".join(out)
 
@@ -121,7 +122,7 @@ def run_cases(ctx, exe, hargs, cases, keyfn, tag, env=None, chunk=20000, max_key
                         again.append((c, at + 1))
                     continue
                 key = keyfn(c, at, f)
-                op, args, exp, _ = c.steps[at]
+                op, args, exp = c.steps[at][:3]
                 what = (what_fn(c, at, f) if what_fn else
                         "%s %s: %s exp=%s got=%s %s" % (op, " ".join(args)[:300], f.kind, (f.exp or exp)[:300], f.got[:300], f.sig))
                 if len(ctx.violations) < max_keys or key in ctx.violations:
